@@ -4,6 +4,7 @@ import (
 	"crypto/sha256"
 	"encoding/hex"
 	"fmt"
+	"io"
 	"os"
 	"path/filepath"
 	"runtime"
@@ -210,6 +211,12 @@ func run(seed int64, n int, dir string, _ []string) {
 		_ = os.MkdirAll(base, 0o755)
 		writeCSV(filepath.Join(base, "big.csv"), []string{"id", "a", "b", "c"}, big)
 		writeCSV(filepath.Join(base, "small.csv"), []string{"id", "b", "d"}, small)
+		var sb strings.Builder
+		sb.WriteString("id,b,d\n")
+		for _, r := range small {
+			sb.WriteString(strings.Join(r, ",") + "\n")
+		}
+		stdinCSV := sb.String()
 		// the same big table in every other format: each loader has its own parallel conversion step
 		{
 			var jl, lt, ts, js strings.Builder
@@ -255,6 +262,17 @@ func run(seed int64, n int, dir string, _ []string) {
 			"SELECT DISTINCT b FROM big GROUP BY b, c",
 			"SELECT DISTINCT COUNT(*) FROM big GROUP BY b, c",
 			"SELECT id FROM big ORDER BY b, a DESC, id",
+			// the first access to STDIN happens inside the per-record evaluation of the workers
+			"SELECT id FROM big WHERE b IN (SELECT b FROM STDIN)",
+			"SELECT id FROM big WHERE EXISTS (SELECT 1 FROM STDIN s WHERE s.b = big.b AND s.id < 4)",
+			"SELECT id, (SELECT COUNT(*) FROM STDIN s WHERE s.b = big.b) AS n FROM big",
+			"SELECT x.id, s.id FROM big x CROSS JOIN LATERAL (SELECT id FROM STDIN t WHERE t.b = x.b ORDER BY id LIMIT 1) s",
+			// built-in functions evaluated per record by every worker: none of them may keep state between calls
+			"SELECT id, FORMAT('%s-%05d-%s|%8.3f', c, id, b, a * 1.5) AS f, LPAD(id, 9, 'ab') AS l, UPPER(c) AS u, REPLACE(c, 'u', 'vv') AS r FROM big",
+			"SELECT id, MD5(c || id) AS m, SHA1(c) AS s1, SHA256(id) AS s2, BASE64_ENCODE(c || id) AS b64, HEX_ENCODE(c) AS hx FROM big",
+			"SELECT id, DATETIME_FORMAT(DATETIME(1700000000 + id), '%Y-%m-%d %H:%i:%s') AS df, ADD_DAY(DATETIME(1700000000), id) AS ad, YEAR(DATETIME(86400 * id)) AS y, DATE_DIFF(DATETIME(86400 * id), DATETIME(0)) AS dd FROM big",
+			"SELECT id, REGEXP_REPLACE(c || id, '[0-9]+', 'N') AS rr, REGEXP_FIND(c || id, '[0-9]') AS rf, NUMBER_FORMAT(id * 1234.5678, 2) AS nf, JSON_VALUE('k', '{\"k\":' || id || '}') AS jv, INSTR(c || id, '1') AS ins FROM big",
+			"SELECT id, ROUND(a / 7.0, 3) AS ro, POW(b, 2) AS pw, BIN(id) AS bi, SUBSTR(c || id, 1, 3) AS su, COALESCE(NULLIF(b, 1), id) AS co, IF(a > 0, c, 'neg') AS iff FROM big",
 			// heavy ties: the order of rows with equal sort keys must not depend on how many workers there are
 			"SELECT id, b FROM big ORDER BY b",
 			"SELECT id, c FROM big ORDER BY c DESC NULLS FIRST, b",
@@ -302,6 +320,9 @@ func run(seed int64, n int, dir string, _ []string) {
 				for rep := 0; rep < 2; rep++ {
 					pr := hc.NewProc(base)
 					pr.SetCPU(cpu)
+					if strings.Contains(q, "STDIN") {
+						_ = pr.P.Tx.Session.SetStdin(io.NopCloser(strings.NewReader(stdinCSV)))
+					}
 					qq := q
 					if k := strings.LastIndex(q, ";\n"); k >= 0 {
 						if _, e := pr.Exec(q[:k+1]); e != nil {
